@@ -116,9 +116,14 @@ CHECKS = {
          "mirror the input, ids are list positions (all result theorems are stated with P[pid]). Explored, not proved: building never "
          "panics - shape-diverse collections (no patterns, empty patterns, duplicates, all 256 byte values, long patterns, up to "
          "5000 patterns x 300 bytes in the thorough tier) x option combinations are built under catch_unwind, metadata compared with "
-         "the model, and sampled patterns searched for. Build totality on arbitrary inputs concerns allocation and the three "
-         "encoders, which the model validates per instance (C04) rather than derives.", "5 C20",
-         "Lean proof of metadata + differential/exploration of builds"),
+         "the model, and sampled patterns searched for (also after a partial occurrence broken by 0xFF). Build totality on the model "
+         "(Theorems/C20Build.lean): checked transcriptions of the three builders and of build_auto's fallback chain with the real "
+         "limit checks (PatternID / SmallIndex / StateID, dense table, repr.len(), state_len << stride2) in the real order; exact "
+         "success and failure characterisations per error kind, explicit sufficient conditions (C20_build_ok_default: at most 1000 "
+         "patterns and 10^6 bytes always build), C20_build_auto_total, shuffle's unwraps unreachable. Tie for the size counters: "
+         "memory_usage() of every low-level automaton equals the model's counters on every run. Still PARTIAL: allocation failure and "
+         "the error paths themselves (>= 2^31 states) are outside what can be run.", "5 C20",
+         "Lean proof of metadata and of build success under explicit size bounds + differential/exploration of builds + memory_usage tie"),
  "C01": ("proof",
          "C01_find_ll / C01_find_lf: for every pattern list (duplicates, nested patterns, the empty pattern), haystack and span, the "
          "search engine (transcription of try_find_fwd) on the ideal leftmost automaton returns THE leftmost-longest / leftmost-first "
